@@ -463,11 +463,12 @@ func receiverReappear(out *AreaOut) {
 
 // corruptBlobsOnRealLoops: undecodable blobs in the bucket while the REAL sync loop runs (real receiver, real
 // downloaders, memory limits of 1).
-//  (a) daemon mode: peer b has a valid snapshot A (merged), then a NEWER undecodable blob B (ignored; the
-//      receiver falls back to A and offers it again), then a newer valid snapshot C: C is merged (C16, C08);
-//      repeated three times, so a token lost per fallback would exhaust the limit.
-//  (b) only_once: b has a valid snapshot and a newer undecodable blob, c has only an undecodable blob: the run
-//      merges b's valid snapshot and RETURNS by itself (C08: a corrupt blob does not block; C16: run-once ends).
+//
+//	(a) daemon mode: peer b has a valid snapshot A (merged), then a NEWER undecodable blob B (ignored; the
+//	    receiver falls back to A and offers it again), then a newer valid snapshot C: C is merged (C16, C08);
+//	    repeated three times, so a token lost per fallback would exhaust the limit.
+//	(b) only_once: b has a valid snapshot and a newer undecodable blob, c has only an undecodable blob: the run
+//	    merges b's valid snapshot and RETURNS by itself (C08: a corrupt blob does not block; C16: run-once ends).
 func corruptBlobsOnRealLoops(out *AreaOut) error {
 	mkSnap := func(inst string, ts time.Time, key, val string) (string, []byte) {
 		d := snapshot.NewDBI()
@@ -618,6 +619,95 @@ func corruptBlobsOnRealLoops(out *AreaOut) error {
 			for _, pid := range []string{"C08", "C16"} {
 				out.Oracle = append(out.Oracle, OracleFailure{pid, "newest-decodable-merged-after-corrupt-blob", fmt.Sprintf("native=%v: only_once run returned, but the newest DECODABLE snapshot of instance b (an older one; the newest blob is undecodable) was not merged", native), nil})
 			}
+		}
+	}
+	return nil
+}
+
+// sweeperInsertsAhead: the application inserts records AHEAD of the sweeper's position while the sweeper pauses
+// between two write-lock slices (the pause is taken through the verif yield hook of the sweeper, so the schedule
+// is exact): the pass still reaches the end of the DBI, and every expired marker the application did not touch
+// is gone when it ends (C13).
+func sweeperInsertsAhead(out *AreaOut) error {
+	for _, native := range []bool{true, false} {
+		out.OracleN++
+		env, cleanup, err := swNewEnv()
+		if err != nil {
+			return err
+		}
+		name := "big"
+		if !native {
+			name = shadowPrefix + "big"
+		}
+		now := uint64(time.Now().UnixNano())
+		expired := swVal(now-uint64(49*time.Hour), 1, nil)
+		const n0 = 1500
+		err = env.Update(func(txn *lmdb.Txn) error {
+			dbi, err := txn.OpenDBI(name, lmdb.Create)
+			if err != nil {
+				return err
+			}
+			for i := 0; i < n0; i++ {
+				if err := txn.Put(dbi, []byte(fmt.Sprintf("k%06d", i)), expired, 0); err != nil {
+					return err
+				}
+			}
+			return nil
+		})
+		if err != nil {
+			cleanup()
+			return err
+		}
+		pauses := 0
+		sweeper.VerifSetYield(func(point string) {
+			if point != "slice" {
+				return
+			}
+			pauses++
+			if pauses == 1 {
+				_ = env.Update(func(txn *lmdb.Txn) error {
+					dbi, err := txn.OpenDBI(name, 0)
+					if err != nil {
+						return err
+					}
+					for j := 0; j < 600; j++ { // live records between k001000 and k001300: ahead of the scan position
+						if err := txn.Put(dbi, []byte(fmt.Sprintf("k%06d+%d", 1000+j/2, j%2)), swVal(now, 0, []byte("inserted")), 0); err != nil {
+							return err
+						}
+					}
+					return nil
+				})
+			}
+		})
+		sw := sweeper.New("verif-ahead", config.Sweeper{Enabled: true, RetentionDays: 1, LockDuration: 1, ReleaseDuration: time.Millisecond}, env, swLogger, native)
+		ctx, cancel := context.WithTimeout(context.Background(), 30*time.Second)
+		serr := sw.VerifSweepOnce(ctx)
+		cancel()
+		sweeper.VerifSetYield(nil)
+		left, inserted := 0, 0
+		_ = env.View(func(txn *lmdb.Txn) error {
+			dbi, err := txn.OpenDBI(name, 0)
+			if err != nil {
+				return nil
+			}
+			ps, _ := dumpDBI(txn, dbi)
+			for _, p := range ps {
+				if bytes.Equal(p.V, expired) {
+					left++
+				} else {
+					inserted++
+				}
+			}
+			return nil
+		})
+		cleanup()
+		hist(out.Hist, fmt.Sprintf("inserts-ahead-of-the-sweeper/native=%v/pauses=%d", native, min(pauses, 3)))
+		in := map[string]any{"native": native, "records": n0, "inserted_in_first_pause": 600}
+		if serr == nil && left > 0 {
+			out.Oracle = append(out.Oracle, OracleFailure{"C13", "removes-every-expired-marker", fmt.Sprintf("DBI %s: 1500 expired markers, the application inserts 600 live records ahead of the sweeper during its first pause; the pass ended without error and %d expired markers it never touched are still there", name, left), in})
+		}
+		if inserted != 600 && pauses >= 1 {
+			out.Oracle = append(out.Oracle, OracleFailure{"C13", "removes-nothing-else", fmt.Sprintf("DBI %s: %d of the 600 live records the application inserted are left", name, inserted), in})
 		}
 	}
 	return nil
